@@ -11,7 +11,7 @@ import glob
 import os
 import re
 
-from .. import facts, hirq
+from .. import facts, hirq, mirg, rules
 from ..rules import norm
 
 META = {
@@ -135,6 +135,27 @@ def run(ctx):
 
     # the MH2O writer lays later layers out by summing VertexDataArray::byte_size(): per variant, one element must count as many
     # bytes as the vertex type that variant holds (evaluated through whatever helpers / tables byte_size goes through)
+    # a position recorded for a chunk describes a chunk only if the helper that follows writes one: a `write_<x>_chunk` helper has no
+    # success return that precedes its first write (the caller has already entered the position into the MHDR / MCIN table)
+    R_helper = ctx.rule("C14.chunk-writer-helpers-always-write", "every serializer::write_<x>_chunk helper writes (write_all / write_chunk / BinWrite) before any `return Ok` — no success path leaves the stream untouched", floor=3)
+    for f in adt.fn_list:
+        if not f.hir or f.kind == "Closure" or not re.search(r"serializer::write_\w+_chunk$", norm(f.path)) or not f.mir or not f.mir.get("blocks"):
+            continue
+        ctx.saw_fn(f)
+        cfg_h = mirg.Cfg(f)
+        wr = [bb for bb, t in mirg.iter_calls(f) if re.search(r"Write>::write_all$|Write::write_all$|serializer::write_chunk$|BinWrite>::write\w*$|binwrite::BinWrite::write\w*$|WriteBytesExt::write_\w+$|serializer::write_\w+$", mirg.callee(t) or "")]
+        oks = [bb for bb, kind, _p in rules.ret_assignments(f) if kind in ("ok", "copy", "other", "call")]
+        # a success exit reachable from the entry without passing any writing block
+        reach0 = cfg_h.reachable(0, avoid=set(wr)) | {0}
+        esc = [o for o in oks if o in reach0 and o not in wr]
+        if not wr:
+            ctx.note_unarmed(R_helper, norm(f.path).split("::")[-1], "no direct write recognised in this helper (delegates entirely)")
+        elif esc:
+            ctx.bad(R_helper, "%s|returns-without-writing" % norm(f.path).split("::")[-1], f.where, "a success return (bb%d) is reachable before anything is written" % esc[0],
+                    "the caller records the stream position as this chunk's offset before calling: the offset table then names a position where another chunk (or nothing) stands")
+        else:
+            ctx.ok(R_helper, {"helper": norm(f.path).split("::")[-1], "writes": len(wr)})
+
     # parsed tile -> builder -> built tile: every content list is carried under its own name (several have the same type: the three
     # name lists, the blend-mesh chunks, the Option<..> texture chunks — a crossed pair still compiles)
     R_carry = ctx.rule("C14.conversion-carries-each-field-under-its-own-name", "in from_parsed / from_root_adt / build every field F of the produced struct literal that the source struct also has derives from source.F and from no other field of the source", floor=55)
